@@ -279,7 +279,10 @@ class PatternQuery(MultiTerm):
     def _btexts(self, ixreader):
         field = ixreader.schema[self.fieldname]
 
-        exp = re.compile(self._get_pattern())
+        try:
+            exp = re.compile(self._get_pattern())
+        except re.error as e:
+            raise qcore.QueryError("Invalid pattern %r: %s" % (self.text, e))
         prefix = self._find_prefix(self.text)
         if prefix:
             candidates = ixreader.expand_prefix(self.fieldname, prefix)
